@@ -374,6 +374,8 @@ def api_level(rep, rng, quick):
             n, m = (40, 9) if i % 2 else (12, 9)       # many rough curves on few points: eig returns unsorted spectra
         grid = ["uniform", "nonuniform", "doy"][i % 3]
         rough = (i % 2 == 0)
+        if i == n_data - 4:
+            n = 30
         kind = "UFPCA" if i % 4 != 3 else "MFPCA"
         if kind == "UFPCA" and i == 1:
             dd = make_dense(rng, n, max(m, 8), "uniform", rough)
@@ -383,6 +385,12 @@ def api_level(rep, rng, quick):
             from harness import fd as _fd
             data = _fd.irregular([tt[mk[k]] for k in range(n)], [XX[k][mk[k]] for k in range(n)])
             grid = "irregular"
+        elif kind == "UFPCA" and i == n_data - 4:
+            # fewer grid points than observations and variation in every direction: rank = n_points, so k = rank = n_points occurs
+            from harness import fd as _fd
+            gx = np.array([0.0, 0.2, 0.45, 0.7, 1.0])
+            data = _fd.dense(gx, 2.0 * rng.normal(size=(n, 1)) + rng.normal(size=(n, len(gx))))
+            grid = "nonuniform"
         elif kind == "UFPCA":
             data = make_dense(rng, n, m, grid, rough)
         else:
@@ -408,7 +416,7 @@ def api_level(rep, rng, quick):
             if kind == "UFPCA" and method == "covariance" and grid != "irregular":
                 pairing_monitor(rep, data, full_val, full_fun, None, grid)
             rank = int(np.sum(full_val > 1e-10 * max(1e-300, full_val.max())))
-            sels = [1, 2, max(1, min(rank, 3)), 0.6, 0.9, 0.99]
+            sels = [1, 2, max(1, min(rank, 3)), max(1, rank), 0.6, 0.9, 0.99]          # incl. the boundary k = rank
             if not quick:
                 sels += list(range(1, rank + 1)) + [float(np.round(rng.uniform(0.1, 0.995), 3)) for _ in range(3)]
             for s in sels:
